@@ -169,9 +169,10 @@ RECURSIVE Tokenize(_, _, _)
 \* the tokens of t from position p on (ILLEGAL ends the scan, as a token of that kind)
 Tokenize(rules, t, p) ==
   IF p > Len(t) THEN <<>>
-  ELSE LET i == FirstRule(rules, t, p) IN
+  ELSE LET i == FirstRule(rules, t, p)
+           e == Match(rules[i], t, p, <<>>) IN
        IF rules[i].kind = "ILLEGAL" THEN <<T("ILLEGAL", <<>>)>>
-       ELSE Emit(rules[i], t, p, Match(rules[i], t, p, <<>>)) \o Tokenize(rules, t, Match(rules[i], t, p, <<>>))
+       ELSE Emit(rules[i], t, p, e) \o Tokenize(rules, t, e)
 Tokens(text, tok, order) == Tokenize(Rules(tok, order), text, 1)
 Kinds(text, tok, order) == LET ts == Tokens(text, tok, order) IN [i \in 1..Len(ts) |-> ts[i].k]
 =============================================================================
